@@ -519,15 +519,37 @@ pub fn registry() -> Vec<VT> {
 		out.extend(v.into_iter().map(|(_, t)| t));
 	}
 	out.extend(subjects::registry::derived());
-	#[cfg(feature = "corpus")]
+	{
+		// each corpus crate is its own cargo feature: if a change to the derive macros makes some of the
+		// (valid) definitions uncompilable, `check` builds with the crates that still compile
+		#[allow(unused_mut)]
+		let mut d: Vec<(usize, VT)> = vec![];
+		#[cfg(feature = "regd0")]
+		d.extend(regd0::types());
+		#[cfg(feature = "regd1")]
+		d.extend(regd1::types());
+		#[cfg(feature = "regd2")]
+		d.extend(regd2::types());
+		#[cfg(feature = "regd3")]
+		d.extend(regd3::types());
+		#[cfg(feature = "regd4")]
+		d.extend(regd4::types());
+		#[cfg(feature = "regd5")]
+		d.extend(regd5::types());
+		d.sort_by_key(|(i, _)| *i);
+		out.extend(d.into_iter().map(|(_, t)| t));
+	}
+	#[cfg(feature = "xcorpus")]
 	{
 		let mut d: Vec<(usize, VT)> = vec![];
-		d.extend(regd0::types());
-		d.extend(regd1::types());
-		d.extend(regd2::types());
-		d.extend(regd3::types());
-		d.extend(regd4::types());
-		d.extend(regd5::types());
+		d.extend(regx0::types());
+		d.extend(regx1::types());
+		d.extend(regx2::types());
+		d.extend(regx3::types());
+		d.extend(regx4::types());
+		d.extend(regx5::types());
+		d.extend(regx6::types());
+		d.extend(regx7::types());
 		d.sort_by_key(|(i, _)| *i);
 		out.extend(d.into_iter().map(|(_, t)| t));
 	}
